@@ -4,6 +4,7 @@ import NmVerif.Simd.ReduceLemmas
 import NmVerif.Simd.EnumLemmas
 import NmVerif.Simd.HorizLemmas
 import NmVerif.Simd.VertLemmas
+import NmVerif.Simd.OuterLemmas
 /-
   C12 — SIMD evaluation equals scalar evaluation for every size, shape and layout.
   Only property statements (+ non-vacuity examples, counterexamples of known findings) live here.
@@ -416,6 +417,23 @@ theorem zipWith_identity_row (op : α → α → α) (e : α) (hid : ∀ a, op e
   | nil => rfl
   | cons x xs ih => simp [List.replicate_succ, hid, ih]
 
+/-! ## eval_outer: the enumerator, operands of any rank -/
+
+/-- **every output cell of `op.outer(lhs, rhs)` is written exactly once, in order**: the blocks the successive steps of
+    `outer_simd_enumerator` write (a register for PACKED, `N − k` scalars for `PAD_k`) concatenate to
+    `0 … prod(lhs ++ rhs) − 1`, for operands of any rank and every last extent `n` (also not a multiple of `N`).
+    (`lhs ++ rhs = pre ++ [n]` just names the last extent of the result.) -/
+theorem outer_covers_once (N : Nat) (hN : 0 < N) (lhs rhs pre : List Nat) (n : Nat)
+    (hsh : lhs ++ rhs = pre ++ [n]) (hpos : Pos pre) :
+    (List.range (outerSize N (lhs ++ rhs) lhs rhs)).flatMap (fun i =>
+        List.range' (outerAt N (lhs ++ rhs) lhs rhs i).1.off (outerLen N (outerAt N (lhs ++ rhs) lhs rhs i).1))
+      = List.range (prod (lhs ++ rhs)) := by
+  have hsz : outerSize N (lhs ++ rhs) lhs rhs = prod pre * oCs N n := by
+    unfold outerSize; rw [outerSimdShape_eq N _ lhs rhs pre n hsh hsh, prod_snoc]
+  have h := (outer_contig N (lhs ++ rhs) lhs rhs pre n hN hsh hsh hpos (prod pre) (Nat.le_refl _)).blocks
+  simp only [Nat.sub_zero] at h
+  rw [hsz, h, hsh, prod_snoc, ← List.range_eq_range']
+
 /-! non-vacuity -/
 example : LaneWise1 4 (fun xs : List Nat => xs.map (· + 1)) (· + 1) := fun _ _ => rfl
 example : (⟨[2,5], false, List.range 10⟩ : NDA Nat).WF ∧ Pos [2,5] := ⟨by simp [NDA.WF, prod], by decide⟩
@@ -431,6 +449,7 @@ example : simdReduceHorizontal 4 (List.zipWith (· + ·)) (· + ·) (0 : Int) [1
     = some [15, 40] := by decide
 example : simdReduceVertical 4 (List.zipWith (· + ·)) (· + ·) [1,2,3,4,5,6,7,8,9,10,11,12] [1,6] [2,6] 0 (List.replicate 6 (0 : Int))
     = some [8,10,12,14,16,18] := by decide
+example : outerSize 4 [2,3,6] [2] [3,6] = 12 ∧ (outerAt 4 [2,3,6] [2] [3,6] 3).1 = ⟨Tag.PAD 2, 10⟩ := by decide
 example : simdReduceAll 4 (List.zipWith (· + ·)) (· + ·) (0 : Int) ⟨[2,5], false, [1,2,3,4,5,6,7,8,9,10]⟩ = some 55 := by decide
 
 end NmVerif.Props.C12
